@@ -2,12 +2,15 @@
      farith : the double arithmetic of /repo/src/libmps/floating-point/mt.c (the cplx_* FUNCTIONS: include/mps/mt.h
               always defines MPS_USE_BUILTIN_COMPLEX, which selects the struct implementation), Flocq binary64,
               round to nearest even, no contraction (the build uses -ffp-contract=off);
-     darith : the DPE arithmetic, Dpe/DpeModel.v (tied to mt.c by the C12 check).
+     darith : the DPE arithmetic, Dpe/DpeModel.v (tied to mt.c by the C12 check); DPE x double products are the
+              REPAIRED functions of Dpe/DpeModel2.v (rdpe_mul_d_fix, cdpe_mul_d_fix: /repo 76adc971 converts the double
+              with rdpe_set_d and calls the DPE x DPE function; rdpe_mul_eq = rdpe_mul in the model, so rdpe_mul_eq_d
+              is the same function).  darith_asis keeps the instance for the code before that commit.
    Extracted (Extract/Extract_newtonfl.v -> bin/newtonfl) and replayed against mps_polynomial_{f,d,m}newton on
    every run of the C04 check.  Definitions only. *)
 From Coq Require Import ZArith Bool List.
 From Flocq Require Import Core BinarySingleNaN.
-From MPSV Require Import Dpe.DpeDefs Dpe.DpeModel Radius.NewtonCoded.
+From MPSV Require Import Dpe.DpeDefs Dpe.DpeModel Dpe.DpeModel2 Radius.NewtonCoded.
 Import ListNotations.
 Open Scope Z_scope.
 
@@ -76,7 +79,20 @@ Definition farith : arith fc b64 b64 :=
 Definition cdpe_divinv (b : cdpe) : cdpe :=
   let t0 := cdpe_div_e b (cdpe_smod b) in Cdpe (cre t0) (rdpe_neg (cim t0)).
 
+(* rdpe_mul_d / rdpe_mul_eq_d (re, e, d) = { rdpe_set_d (t, d); rdpe_mul (re, e, t); },
+   cdpe_mul_d (rc, c, d) = { rdpe_set_d (t, d); cdpe_mul_e (rc, c, t); }     (mt.c since 76adc971) *)
 Definition darith : arith cdpe rdpe b64 :=
+  {| cmul := cdpe_mul; cadd := cdpe_add; csub := cdpe_sub; cmuld := cdpe_mul_d_fix;
+     cinv := cdpe_divinv; cinv_eq := cdpe_inv; czero := cdpe_zero; cone := cdpe_one;
+     ceq0 := fun x => cdpe_eq x cdpe_zero;        (* cdpe_eq (p1, cdpe_zero); cdpe_ne is its negation *)
+     cmod := cdpe_mod;
+     radd := rdpe_add; radd_eq := rdpe_add_eq; rmul := rdpe_mul; rdiv := rdpe_div; rmuld := rdpe_mul_d_fix;
+     rgt := rdpe_gt; rlt := rdpe_lt; req0 := rdpe_eq_zero;
+     rle1 := fun x => rdpe_le x rdpe_one; rinv1 := rdpe_inv; rmin := rdpe_set_d DBL_MIN;
+     rnat := fun n => rdpe_set_d (fofnat n); dnat := fofnat; dmul := fmul; dadd := fadd; deps := DBL_EPS |}.
+
+(* the same with the *_d functions as they were before 76adc971 (mantissa times the raw double); not extracted *)
+Definition darith_asis : arith cdpe rdpe b64 :=
   {| cmul := cdpe_mul; cadd := cdpe_add; csub := cdpe_sub; cmuld := cdpe_mul_d;
      cinv := cdpe_divinv; cinv_eq := cdpe_inv; czero := cdpe_zero; cone := cdpe_one;
      ceq0 := fun x => cdpe_eq x cdpe_zero;        (* cdpe_eq (p1, cdpe_zero); cdpe_ne is its negation *)
